@@ -19,4 +19,6 @@ if ! cargo build --profile verif -q 2>/verif/harness/target/build-$ID.log; then
   tail -40 /verif/harness/target/build-$ID.log >&2
   exit 2
 fi
+# address-space cap: an allocation blow-up in the checked code ends the run (exit 2 / reported case) instead of the machine
+ulimit -v 41943040 2>/dev/null
 exec ./target/verif/qv check "$ID" --tier "$TIER"
